@@ -860,7 +860,7 @@ type c08PanicReader struct{}
 
 func (c08PanicReader) Read(p []byte) (int, error) { panic("c08: the reader panics") }
 
-// c08NilTargetSafe: does the tree under check refuse an untyped nil target (fixes/C08-nil-target.patch) or panic on it
+// c08NilTargetSafe: does the tree under check refuse an untyped nil target (fixes/not-applied/C08-nil-target.patch) or panic on it
 // (`reflect.TypeOf(nil).Kind()` in Unmarshaler.unmarshal)?  The class tgt=nil is generated only on a tree that refuses it;
 // the defect of the unpatched tree is kept as Props.pinned_nil_target_panics + replays/C08-nil-target.json.
 func c08NilTargetSafe() (safe bool) {
